@@ -75,6 +75,23 @@ Theorem C18_connect_pipelining : forall cfg r t h s,
 Proof. exact connect_pipelining. Qed.
 Print Assumptions C18_connect_pipelining.
 
+(* ... and that holds whatever body framing the CONNECT header declares (Content-Length 0 / n / more than
+   what follows, Transfer-Encoding: chunked): the declared framing changes nothing in the proxy's trace.
+   (C18_connect_pipelining quantifies over r, hence over hr_framing r; this states the independence.) *)
+Theorem C18_connect_framing_irrelevant : forall cfg r fr t h s,
+  hr_connect r = true -> c18_http cfg (c18_set_framing fr r :: t) h s = c18_http cfg (r :: t) h s.
+Proof. exact connect_framing_irrelevant. Qed.
+Print Assumptions C18_connect_framing_irrelevant.
+
+(* Ownership fact behind it: req.Body of a CONNECT shares the reader with the pipelined bytes and must not
+   be read or closed before the hand-over.  A dispatch that closed it (net/http discards the declared body,
+   k > 0 bytes) would relay the tail with its first k bytes missing, which is never the tail itself. *)
+Theorem C18_connect_body_close_refuted : forall k tail,
+  c18_copy_all (c18_pre_discard k tail) = skipn k (c18_pre_remaining tail) /\
+  ((0 < k)%nat -> c18_pre_remaining tail <> [] -> c18_copy_all (c18_pre_discard k tail) <> c18_pre_remaining tail).
+Proof. exact connect_body_close_truncates. Qed.
+Print Assumptions C18_connect_body_close_refuted.
+
 (* cachedConn: for EVERY sequence of Read buffer sizes (zeros included) the bytes read so far followed
    by those still to come are buffered ++ stream *)
 Theorem C18_cached_reads_in_order : forall buffered rest sizes out r',
